@@ -18,6 +18,9 @@ enum Setup {
     DirectM,
     DirectD,
     StreamM,
+    EagerM,
+    /// the same script program through the legacy capability API, the command API and directly
+    LegacyLockstep,
     Nested,
     CoreM,
     CoreD,
@@ -36,6 +39,8 @@ impl Setup {
             Setup::DirectM => "DirectM",
             Setup::DirectD => "DirectD",
             Setup::StreamM => "StreamM",
+            Setup::EagerM => "EagerM",
+            Setup::LegacyLockstep => "LegacyLockstep",
             Setup::Nested => "Nested",
             Setup::CoreM => "CoreM",
             Setup::CoreD => "CoreD",
@@ -50,6 +55,8 @@ impl Setup {
             Setup::DirectM,
             Setup::DirectD,
             Setup::StreamM,
+            Setup::EagerM,
+            Setup::LegacyLockstep,
             Setup::Nested,
             Setup::CoreM,
             Setup::CoreD,
@@ -114,6 +121,19 @@ fn make_hosts(setup: Setup, program: &Cmd, rng: &mut Rng, max_layers: usize) -> 
             vec![HostSlot::new(Box::new(StreamHost::<m::Effect>::new()), 0)],
             vec![Mode::DIRECT],
         ),
+        Setup::EagerM => (
+            vec![HostSlot::new(Box::new(EagerHost::<m::Effect>::new()), 0)],
+            vec![Mode::DIRECT],
+        ),
+        Setup::LegacyLockstep => (
+            vec![
+                HostSlot::new(Box::new(CoreHost::<AppD>::new(true)), 0),
+                HostSlot::new(Box::new(CoreHost::<AppD>::new(false)), 1),
+                HostSlot::new(Box::new(CoreHost::<AppM>::new(false)), 1),
+                HostSlot::new(Box::new(Direct::<d::Effect>::new()), 2),
+            ],
+            vec![Mode::LEGACY, Mode::CORE, Mode::DIRECT],
+        ),
         Setup::Nested => (
             vec![nested(rng, 0, false), nested(rng, 0, true)],
             vec![Mode::NESTED],
@@ -134,6 +154,7 @@ fn make_hosts(setup: Setup, program: &Cmd, rng: &mut Rng, max_layers: usize) -> 
             vec![
                 HostSlot::new(Box::new(Direct::<m::Effect>::new()), 0),
                 HostSlot::new(Box::new(StreamHost::<d::Effect>::new()), 0),
+                HostSlot::new(Box::new(EagerHost::<m::Effect>::new()), 0),
                 nested(rng, 1, false),
                 nested(rng, 1, true),
                 HostSlot::new(Box::new(CoreHost::<AppM>::new(false)), 2),
@@ -187,7 +208,7 @@ fn plan_for(prop: &str, thorough: bool) -> Plan {
             setups: vec![(Setup::CoreM, 4), (Setup::CoreD, 4), (Setup::Legacy, 3)],
             gen: GenCfg { event_then: true, ..base },
             steps,
-            cases: (4_000, 300_000),
+            cases: (40_000, 600_000),
             fu_per_mille: 0,
             max_layers: 1,
             rule: "random program (full AST incl. follow-up programs returned by update for emitted events) x random shell schedule through Core (command API via both effect macros, and legacy capability API); non-trivial = at least 3 core calls, 2 effects and 1 event; distinct = hash of (program, history)",
@@ -201,7 +222,7 @@ fn plan_for(prop: &str, thorough: bool) -> Plan {
             ],
             gen: GenCfg { script_weight: 15, ..base },
             steps: if thorough { (6, 60) } else { (6, 40) },
-            cases: (3_000, 200_000),
+            cases: (30_000, 400_000),
             fu_per_mille: 0,
             max_layers: 1,
             rule: "random programs with many simultaneously outstanding one-shot, stream and notification requests x histories with out-of-order, repeated and late resolutions, on the typed path (Request::resolve, Core::resolve), the legacy futures and the serialized bridges; every resolution carries a unique value so the event identifies the continuation that ran; non-trivial = at least 3 steps, 2 effects, 1 event; distinct = hash of (program, history)",
@@ -210,43 +231,43 @@ fn plan_for(prop: &str, thorough: bool) -> Plan {
             setups: vec![(Setup::CoreM, 4), (Setup::CoreD, 3), (Setup::Legacy, 3)],
             gen: GenCfg { event_then: true, script_weight: 30, ..base },
             steps,
-            cases: (4_000, 300_000),
+            cases: (40_000, 600_000),
             fu_per_mille: 0,
             max_layers: 1,
             rule: "script-heavy random programs emitting bursts of events through Core; non-trivial = at least 3 core calls, 2 effects and 1 event; distinct = hash of (program, history)",
         },
         "C04" => Plan {
-            setups: vec![(Setup::DirectM, 5), (Setup::DirectD, 3), (Setup::StreamM, 3)],
+            setups: vec![(Setup::DirectM, 5), (Setup::DirectD, 3), (Setup::StreamM, 3), (Setup::EagerM, 2)],
             gen: base,
             steps,
-            cases: (6_000, 500_000),
+            cases: (60_000, 1_000_000),
             fu_per_mille: 0,
             max_layers: 1,
             rule: "random combinator / builder-chain / async-script expression x random resolve/drop/abort history on the command itself; non-trivial = at least 3 steps, 2 effects and 1 event; distinct = hash of (program, history)",
         },
         "C05" => Plan {
-            setups: vec![(Setup::AllTyped, 5), (Setup::AllWithBridges, 5), (Setup::Nested, 2)],
+            setups: vec![(Setup::AllTyped, 5), (Setup::AllWithBridges, 5), (Setup::Nested, 2), (Setup::LegacyLockstep, 3)],
             gen: base,
             steps,
-            cases: (1_500, 100_000),
+            cases: (15_000, 200_000),
             fu_per_mille: 0,
             max_layers: if thorough { 10 } else { 6 },
             rule: "one program and one history on up to 8 hosts in lock-step (direct, stream-polled, 1-10 neutral wrapper layers, Core via both macros, bincode and JSON bridges); non-trivial = at least 3 steps, 2 effects and 1 event; distinct = hash of (program, history)",
         },
         "C06" => Plan {
-            setups: vec![(Setup::DirectM, 4), (Setup::StreamM, 2), (Setup::AllTyped, 3)],
+            setups: vec![(Setup::DirectM, 4), (Setup::StreamM, 2), (Setup::EagerM, 1), (Setup::AllTyped, 3)],
             gen: GenCfg { script_weight: 20, ..base },
             steps,
-            cases: (3_000, 200_000),
+            cases: (30_000, 400_000),
             fu_per_mille: 0,
             max_layers: 3,
             rule: "random programs with abort handles and task aborts x histories biased to abort/drop/late resolution; non-trivial = at least one abort or drop followed by a later action, 2 effects; distinct = hash of (program, history)",
         },
         "C07" => Plan {
-            setups: vec![(Setup::DirectM, 5), (Setup::DirectD, 2), (Setup::StreamM, 3)],
+            setups: vec![(Setup::DirectM, 5), (Setup::DirectD, 2), (Setup::StreamM, 3), (Setup::EagerM, 1)],
             gen: GenCfg { script_weight: 30, ..base },
             steps,
-            cases: (6_000, 500_000),
+            cases: (60_000, 1_000_000),
             fu_per_mille: 60,
             max_layers: 1,
             rule: "script-heavy random programs (requests, streams, join, select, join handles, self-waking futures) x resolve-some/drop-others histories ending in resolve-or-drop of everything; is_done compared after every step; non-trivial = at least 3 steps and 2 effects with is_done compared at least twice; distinct = hash of (program, history)",
@@ -255,7 +276,7 @@ fn plan_for(prop: &str, thorough: bool) -> Plan {
             setups: vec![(Setup::Bridges, 1)],
             gen: GenCfg { event_then: true, ..base },
             steps,
-            cases: (1_500, 100_000),
+            cases: (15_000, 200_000),
             fu_per_mille: 0,
             max_layers: 1,
             rule: "one program and one history (out-of-order responses) on a typed Core twin and four bridges (bincode/JSON x attribute/derive effect macro) in lock-step; non-trivial = at least 3 calls, 2 effects and 1 event; distinct = hash of (program, history)",
@@ -317,7 +338,7 @@ fn main() {
         let state = rng.state();
         let setup = plan.setups[rng.weighted(&weights)].0;
         let mut gen_cfg = plan.gen.clone();
-        gen_cfg.legacy = setup == Setup::Legacy;
+        gen_cfg.legacy = setup == Setup::Legacy || setup == Setup::LegacyLockstep;
         if !setup.core_only() {
             gen_cfg.event_then = false;
         }
@@ -336,8 +357,30 @@ fn main() {
         if args.prop == "C06" {
             cfg.noop = true;
         }
-        if setup == Setup::Legacy {
+        if setup == Setup::Legacy || setup == Setup::LegacyLockstep {
             cfg.abort = false;
+        }
+        if setup == Setup::LegacyLockstep {
+            // the legacy API has no cancellation: histories without drops keep the hosts comparable
+            cfg.drop = false;
+            cfg.final_cleanup = false;
+        }
+        // one case in five hammers streams (many items on one stream), one in six extends
+        // the command from outside after it has started
+        cfg.stream_bias = rng.chance(1, 5);
+        if cfg.stream_bias {
+            cfg.max_steps = cfg.max_steps.max(24);
+        }
+        if matches!(setup, Setup::DirectM | Setup::DirectD | Setup::StreamM) && rng.chance(1, 6) {
+            let k = rng.range(1, 2);
+            for i in 0..k {
+                let mut gc = GenCfg::quick();
+                gc.max_nodes = 4;
+                gc.abortable = false;
+                let mut g = Gen::new(&mut rng, gc);
+                g.offset_ids(50_000 + 1000 * i as u32);
+                cfg.extend_pool.push(g.program());
+            }
         }
         wd.begin(|| {
             json!({"lane": "cmdlab", "setup": setup.name(), "program": program, "rng_state": state, "note": "actions are generated while running; re-run with this rng_state"}).to_string()
@@ -360,6 +403,7 @@ fn main() {
                 r.count("drops", s.drops as u64);
                 r.count("aborts", s.aborts as u64);
                 r.count("noop_probes", s.noops as u64);
+                r.count("external_extensions", s.extends as u64);
                 r.count("out_of_issue_order_resolutions", s.out_of_order as u64);
                 r.count("is_done_compared", s.done_checked as u64);
                 r.count("is_done_not_compared_cancellation_sweep_pending", s.done_unknown as u64);
